@@ -1,10 +1,15 @@
-// harness binary of group "etrade" (stub: replaced by the group's modes)
+// harness binary of group "etrade": modes extract (run_with_args over .txt
+// confirmations) and acbparse (the emitted CSV through the real acb reader)
 #[path = "hcommon.rs"]
 mod hcommon;
+mod etrade_mode;
 #[allow(dead_code)]
 mod util;
 pub use hcommon::guarded;
 
 fn main() {
-    hcommon::run_main(&[]);
+    hcommon::run_main(&[
+        ("extract", etrade_mode::handle_extract),
+        ("acbparse", etrade_mode::handle_acbparse),
+    ]);
 }
